@@ -35,6 +35,7 @@ CONSTANTS
   ForeignOps = {"start", "pause", "resume", "stop", "deregister", "subscribe", "unsubscribe", "tell", "publish", "pill", "become", "unbecome", "unstash", "batchsize", "batchtimeout", "tokenbucket", "fdreg", "fddereg", "srclen", "stats", "bind"}
   MaxRefs = 1
   MaxHeld = 0
+  PoolSize = 16
   Setup = ""
 INIT Init
 NEXT Next
